@@ -46,6 +46,8 @@ var solvers = []solverSpec{
 	{"z3/seed0", func(f string, t int) []string { return []string{"z3", fmt.Sprintf("-T:%d", t), "smt.random_seed=0", f} }},
 }
 
+var rawSolvers = []solverSpec{solvers[2], solvers[0]}
+
 // retrySolvers: the second attempt at an obligation nobody decided in time. Quantifier instantiation is sensitive to the
 // random seed (a query one seed decides in half a second can time out with another), so the retry runs other seeds
 // next to the first set. All seeds are fixed: a run is reproducible.
@@ -98,7 +100,7 @@ func dischargeWith(solvers []solverSpec, file string, timeoutS int, race bool) (
 	// In a race, the other seeds join after a short head start when nobody has answered yet (most obligations are
 	// decided within a fraction of a second and never need them).
 	var late []solverSpec
-	if race && len(solvers) < len(retrySolvers) && timeoutS > lateStartS {
+	if race && len(solvers) == 4 && timeoutS > lateStartS {
 		late = retrySolvers[len(solvers):]
 	}
 	ch := make(chan SolverResult, len(solvers)+len(late))
@@ -215,7 +217,18 @@ func DischargeAll(obls []*Obligation, covers []*Cover, o DischargeOpts) (res []*
 				// the full limit for "unknown" only slows the check down
 				limit = 4
 			}
-			st, solver, t, all, dis := discharge(j.r.File, limit, o.Race)
+			raw := j.r.Cover == nil && j.r.Obl != nil && j.r.Obl.Raw != ""
+			var st, solver string
+			var t float64
+			var all []SolverResult
+			var dis bool
+			if raw {
+				// hand-written lemma scripts (bit-vector / floating-point facts): bit-blasting is CPU-bound and not
+				// seed-sensitive, two solvers are enough
+				st, solver, t, all, dis = dischargeWith(rawSolvers, j.r.File, 3*limit, o.Race)
+			} else {
+				st, solver, t, all, dis = discharge(j.r.File, limit, o.Race)
+			}
 			for try := 0; st == "error" && try < 2; try++ {
 				// every solver failed to start or died (a loaded machine): not an answer, ask again
 				time.Sleep(500 * time.Millisecond)
